@@ -6,9 +6,9 @@ import NodisVerif.Proofs.C10Base
 namespace NodisVerif.Proofs.C10
 open NodisVerif Store
 
-theorem scan_go_sound (now : Int) (pat : Bytes) (typ : Nat) (keyLen : Int) :
+theorem scan_go_sound (now : Int) (pat : Bytes) (typ : Nat) :
     ∀ (ents : List (Bytes × Meta)) (s : MState) (cursor iter count : Int) (acc : List Bytes) (k : Bytes),
-      k ∈ (Api.scan.go now pat typ keyLen ents s cursor iter count acc).2.2 →
+      k ∈ (Api.scan.go now pat typ ents s cursor iter count acc).2.2 →
       k ∈ acc ∨ ∃ m, (k, m) ∈ ents ∧ m.expired now = false ∧ Glob.matched pat k = true := by
   intro ents
   induction ents with
@@ -21,7 +21,7 @@ theorem scan_go_sound (now : Int) (pat : Bytes) (typ : Nat) (keyLen : Int) :
     intro s cursor iter count acc k h
     unfold Api.scan.go at h
     simp only at h
-    have lift : ∀ {s' c i n a}, k ∈ (Api.scan.go now pat typ keyLen rest s' c i n a).2.2 → a = acc →
+    have lift : ∀ {s' c i n a}, k ∈ (Api.scan.go now pat typ rest s' c i n a).2.2 → a = acc →
         k ∈ acc ∨ ∃ m', (k, m') ∈ (key, m) :: rest ∧ m'.expired now = false ∧ Glob.matched pat k = true := by
       intro s' c i n a hk ha
       subst ha
@@ -33,19 +33,25 @@ theorem scan_go_sound (now : Int) (pat : Bytes) (typ : Nat) (keyLen : Int) :
     · split at h
       · exact Or.inl (by simpa using h)
       · split at h
-        · exact Or.inl (by simpa using h)
-        · split at h
-          · rename_i hc
-            split at h
-            · exact lift h rfl
-            · rcases ih _ _ _ _ _ _ h with h1 | ⟨m', h1, h2⟩
+        · rename_i hc
+          have aux : ∀ (p : MState × Nat),
+              k ∈ (if typ ≠ 0 ∧ p.2 ≠ typ then
+                    Api.scan.go now pat typ rest p.1 (wrap64 (cursor - 1)) (iter + 1) (wrap64 (count - 1)) acc
+                  else Api.scan.go now pat typ rest p.1 (wrap64 (cursor - 1)) (iter + 1) (wrap64 (count - 1))
+                    (key :: acc)).2.2 →
+              k ∈ acc ∨ ∃ m', (k, m') ∈ (key, m) :: rest ∧ m'.expired now = false ∧ Glob.matched pat k = true := by
+            intro p hp
+            split at hp
+            · exact lift hp rfl
+            · rcases ih _ _ _ _ _ _ hp with h1 | ⟨m', h1, h2⟩
               · rcases List.mem_cons.mp h1 with h1 | h1
                 · subst h1
                   simp only [Bool.and_eq_true, Bool.not_eq_true'] at hc
                   exact Or.inr ⟨m, List.mem_cons_self, hc.2, hc.1⟩
                 · exact Or.inl h1
               · exact Or.inr ⟨m', List.mem_cons_of_mem _ h1, h2⟩
-          · exact lift h rfl
+          exact aux _ h
+        · exact lift h rfl
 
 /-- every name in a SCAN reply is indexed, unexpired at `now`, and matches the pattern -/
 theorem scan_sound (s : MState) (now cursor : Int) (pat : Bytes) (count : Int) (typ : Nat) (n : Int)
@@ -62,7 +68,7 @@ theorem scan_sound (s : MState) (now cursor : Int) (pat : Bytes) (count : Int) (
     · simp only [Out.many.injEq, List.cons.injEq, Out.slist.injEq, and_true] at h
       intro k hk
       rw [← h.2] at hk
-      rcases scan_go_sound now pat typ _ _ _ _ _ _ _ k hk with h1 | h1
+      rcases scan_go_sound now pat typ _ _ _ _ _ _ k hk with h1 | h1
       · cases h1
       · exact h1
 
